@@ -146,7 +146,7 @@ class Gen:
                 elif y < 0.93: lines.append(f'K {tid} {r.choice(tids + [0])}')
                 elif y < 0.95: lines.append(f'K {tid} {tid}')
                 elif y < 0.97: lines.append(f'J {tid} b.{r.choice(self.names)}')
-                else: lines.append(f'E {r.choice(["null", "dead", "bad", "nontype"])} {tid} {r.choice([p for p in pool if p[2] not in self.cached])[0]}')
+                else: lines.append(f'E {r.choice(["null", "dead", "bad", "nontype", "nullcls", "nullcls"])} {tid} {r.choice([p for p in pool if p[2] not in self.cached])[0]}')
         return Case(name, lines)
 
     # ---- (3) statically declared probe types: every class, cold then warm, in several orders
@@ -300,12 +300,13 @@ class Gen:
         # one candidate list per cache slot: the library class and every run-time class object that carries its name
         slot_cls = [[c for c in pool if c[2] == nm] for nm in self.cached]
         cold = [c for c in pool if c[2] not in self.cached]
-        gc_live = 0
+        gc_live = 0; arena_live = 0
         sizes = [0, 0, 8, 16, 24, 4096]
         for t in range(ntypes):
             tid = t + 1
-            mode = r.choice(['raw', 'root', 'alloc', 'junk', 'junk', 'gc' if gc_live < 40 else 'raw'])
+            mode = r.choice(['raw', 'root', 'alloc', 'junk', 'arena' if arena_live < 6 else 'junk', 'gc' if gc_live < 40 else 'raw'])
             if mode == 'gc': gc_live += 1
+            if mode == 'arena': arena_live += 1
             row = self.life_row(pool, slot_cls, cold, n_hint=(r.choice([256, 255, 200]) if big and r.random() < 0.5 else None))
             lines.append((f'N {tid} {mode} L{tid}_{name} {r.choice(sizes)} ' + ' '.join(it for c, it, m in row)).rstrip())
             removed = []
@@ -334,10 +335,205 @@ class Gen:
             if y < 0.5:
                 lines.append(f'X {tid}')
                 if mode == 'gc': gc_live -= 1
-                if y < 0.2:
+                if mode == 'arena': arena_live -= 1
+                if y < 0.2 or (mode == 'arena' and y < 0.4):
+                    # the next type object; in mode arena it lands on the address of the one just deleted
+                    old = row
                     row = self.life_row(pool, slot_cls, cold)
-                    lines.append((f'N {tid} {r.choice(["raw", "alloc", "junk"])} L{tid}b_{name} 0 ' + ' '.join(it for c, it, m in row)).rstrip())
-                    lines += self.life_lookups(tid, row, slot_cls, cold, [], 0.5)
+                    m2 = 'arena' if mode == 'arena' else r.choice(["raw", "alloc", "junk"])
+                    if m2 == 'arena': arena_live += 1
+                    lines.append((f'N {tid} {m2} L{tid}b_{name} 0 ' + ' '.join(it for c, it, m in row)).rstrip())
+                    gone = list({c[0]: c for c, it, m in old if not any(cc[2] == c[2] for cc, it2, m2_ in row)}.values())
+                    lines += self.life_lookups(tid, row, slot_cls, cold, gone, 0.5)
+        return Case(name, lines)
+
+    # ---- (6) a deleted type object and the next one on the SAME ADDRESS (harness arena): nothing the library remembered about
+    #          the old type object may answer for the new one
+    def reuse_case(self, name, rounds):
+        r = self.rng
+        lines = self.prelude()
+        pool = self.class_pool(lines, 14)
+        pool = [c for c in pool if c[2] != 'Terminal']
+        slot_cls = [[c for c in pool if c[2] == nm] for nm in self.cached]
+        cold = [c for c in pool if c[2] not in self.cached]
+        tid = 0; kept = []
+        for rd in range(rounds):
+            tid += 1
+            row = self.life_row(pool, slot_cls, cold)
+            extra = [self.life_item(c) for c in r.sample(cold, r.randrange(1, 4))]
+            row = row + extra; r.shuffle(row)
+            lines.append((f'N {tid} arena A{tid}_{name} {r.choice([0, 8, 16])} ' + ' '.join(it for c, it, m in row)).rstrip())
+            lines += self.life_lookups(tid, row, slot_cls, cold, [], 0.3)
+            # the last lookups before the deletion: one class (present or absent, mostly uncached), possibly repeated
+            last = r.choice(extra)[0] if r.random() < 0.7 else r.choice(pool)
+            entry = r.choice(['I', 'i', 'M', 'm', 'P', 'Q'])
+            first = next(((cc, m) for cc, it, m in row if cc[2] == last[2]), None)
+            k = r.randrange(max(first[1], 1)) if first else 0
+            def look(t, e, c, kk): return f'{e} {t} {c[0]}' + (f' {kk}' if e in 'MmQq' else '')
+            for _ in range(r.randrange(1, 3)): lines.append(look(tid, entry, last, k))
+            lines.append(f'X {tid}')
+            # the next type object on the same address: without that class, or with another instance (other flags) for it
+            tid += 1
+            row2 = [x for x in self.life_mutate(row, pool, slot_cls, cold) if x[0][2] != last[2]]
+            if r.random() < 0.5:
+                row2.insert(r.randrange(len(row2) + 1), self.life_item(last))
+            lines.append((f'N {tid} arena A{tid}_{name} {r.choice([0, 8, 16])} ' + ' '.join(it for c, it, m in row2)).rstrip())
+            first2 = next(((cc, m) for cc, it, m in row2 if cc[2] == last[2]), None)
+            k2 = r.randrange(max(first2[1], 1)) if first2 else 0
+            lines.append(look(tid, entry, last, k2))                       # the very first lookup: the same class, the same entry point
+            lines.append(look(tid, r.choice(['I', 'M']), last, k2))
+            lines += self.life_lookups(tid, row2, slot_cls, cold, [c for c, it, m in row if c[2] != last[2]][:4], 0.4)
+            if r.random() < 0.7: lines.append(f'X {tid}')
+            else:
+                kept.append(tid)
+                if len(kept) >= 5:                                         # keep the arena from filling up
+                    for t in kept: lines.append(f'X {t}')
+                    kept = []
+        return Case(name, lines)
+
+    # ---- (7) class names in a prefix relation: the by-name comparison must be an exact one
+    PREFIX_PAIRS = [('Show', 'Showable'), ('Hash', 'Hashable'), ('Iter', 'Iterable'), ('Foo', 'FooBar'), ('Cmp', 'Cmpx'),
+                    ('C_Str', 'C_Strx'), ('Format', 'FormatError'), ('Get', 'Getter'), ('New', 'Newt'), ('S', 'Size'), ('Len', 'Le')]
+    def prefix_case(self, name):
+        r = self.rng
+        lines = self.prelude()
+        pairs = r.sample(self.PREFIX_PAIRS, 5)
+        toks = {}          # class name -> list of tokens (library object and/or run-time class objects)
+        k = 0
+        for short, long_ in pairs:
+            for nm in (short, long_):
+                toks.setdefault(nm, [])
+                if nm in self.names: toks[nm].append('b.' + nm)
+                if nm not in self.names or r.random() < 0.5:
+                    lines.append(f'C {k} {nm}'); toks[nm].append(f'r.{k}'); k += 1
+        def item(nm):
+            ar = self.arity.get(nm, None)
+            n = ar if ar is not None else r.randrange(1, 4)
+            return f'{r.choice(toks[nm])}:' + ''.join(r.choice('011') for _ in range(n)), n
+        tid = 0
+        for short, long_ in pairs:
+            other = [nm for p in pairs for nm in p if nm not in (short, long_)]
+            shapes = [[long_], [long_, short], [short, long_], [short], [long_, long_, short], [r.choice(other), long_, r.choice(other)],
+                      [r.choice(other), long_, short]]
+            for shape in shapes:
+                tid += 1
+                row = [(nm,) + item(nm) for nm in shape]
+                opn = r.choice(['T', 'N'])
+                if opn == 'T': lines.append(f'T {tid} P{tid}_{name} ' + ' '.join(it for nm, it, n in row))
+                else: lines.append(f'N {tid} {r.choice(["raw", "junk", "arena" if tid % 9 == 0 else "alloc"])} P{tid}_{name} 0 ' + ' '.join(it for nm, it, n in row))
+                for rep in range(2):                                                 # cold, then warm
+                    order = [short, long_] if r.random() < 0.5 else [long_, short]
+                    for nm in order:
+                        first = next((n for nm2, it, n in row if nm2 == nm), None)
+                        kk = r.randrange(first) if first else 0
+                        for tok in toks[nm]:
+                            for e in r.sample(['I', 'i', 'P', 'p', 'M', 'm', 'Q', 'q'], 4):
+                                lines.append(f'{e} {tid} {tok}' + (f' {kk}' if e in 'MmQq' else ''))
+                    if rep == 0 and r.random() < 0.3: lines.append(f'R {tid}')
+                if opn == 'N' and tid % 9 == 0: lines.append(f'X {tid}')
+        return Case(name, lines)
+
+    # ---- (8) type objects used as CLASSES of other types: re-constructed, renamed, deleted, replaced on the same address —
+    #          inside the territory of C08_world_history (a name is written only at an address that no record memoises under
+    #          another name: the memoising records are reset first, or the name stays)
+    def classlife_case(self, name, rounds):
+        r = self.rng
+        lines = self.prelude()
+        libs = [c for c in self.names if c != 'Terminal']
+        cnames = ['Foo', 'Bar', 'Foo', 'Baz', 'Show', 'Hash', 'Qux', 'Widget', 'Cmp', 'Doc']
+        lines.append('C 0 Foo'); lines.append('C 1 Show')
+        rtok = [('r.0', 'Foo'), ('r.1', 'Show')]
+        K = {}            # tid -> current name of a live class-type
+        T = {}            # tid -> row: list of (class name at construction, flags)
+        mode_of = {}
+        nxt = [0]
+        arena_live = [0]
+        def fresh():
+            nxt[0] += 1; return nxt[0]
+        def flags(n=None):
+            n = n or r.randrange(1, 4); return ''.join(r.choice('011') for _ in range(n))
+        def lib_items(k):
+            out = []
+            for c in r.sample(libs, k):
+                out.append((f'b.{c}', c, flags(self.arity.get(c, 1))))
+            return out
+        def new_class(nm=None):
+            tid = fresh(); nm = nm or r.choice(cnames)
+            mode = 'arena' if arena_live[0] < 5 and r.random() < 0.7 else r.choice(['raw', 'junk', 'alloc'])
+            if mode == 'arena': arena_live[0] += 1
+            items = lib_items(r.randrange(0, 3))
+            lines.append((f'N {tid} {mode} {nm} {r.choice([0, 8])} ' + ' '.join(f'{t}:{f}' for t, c, f in items)).rstrip())
+            K[tid] = nm; mode_of[tid] = mode; T[tid] = [(c, f) for t, c, f in items]
+            return tid
+        def type_row():
+            items = []
+            for kt in r.sample(list(K), min(len(K), r.randrange(1, 4))): items.append((f't.{kt}', K[kt], flags()))
+            for t, nm in r.sample(rtok, r.randrange(0, 3)): items.append((t, nm, flags()))
+            items += lib_items(r.randrange(0, 4))
+            if items and r.random() < 0.3: t, nm, f = r.choice(items); items.append((t, nm, flags(len(f))))
+            r.shuffle(items)
+            return items
+        def new_type():
+            tid = fresh(); items = type_row()
+            lines.append((f'N {tid} {r.choice(["raw", "junk", "alloc", "root"])} T{tid}_{name} {r.choice([0, 8])} ' + ' '.join(f'{t}:{f}' for t, c, f in items)).rstrip())
+            T[tid] = [(c, f) for t, c, f in items]; mode_of[tid] = 'raw'
+            return tid
+        def lookups(n):
+            users = [t for t in T if t not in K] or list(T)
+            for _ in range(n):
+                tid = r.choice(users if r.random() < 0.85 else list(T))
+                x = r.random()
+                if x < 0.6 and K: kt = r.choice(list(K)); tok, nm = f't.{kt}', K[kt]
+                elif x < 0.8: tok, nm = r.choice(rtok)
+                else: c = r.choice(libs); tok, nm = f'b.{c}', c
+                first = next((f for c, f in T[tid] if c == nm), None)
+                kk = r.randrange(len(first)) if first else 0
+                e = r.choice('IiPpMmQq')
+                lines.append(f'{e} {tid} {tok}' + (f' {kk}' if e in 'MmQq' else ''))
+                if r.random() < 0.03: lines.append(f'K {tid} {r.choice(list(T))}')
+                if r.random() < 0.03: lines.append(f'E nullcls {tid} b.Show')
+        def reset_all():
+            for t in T: lines.append(f'R {t}')
+        for _ in range(3): new_class()
+        for _ in range(3): new_type()
+        for rd in range(rounds):
+            lookups(r.randrange(4, 14))
+            x = r.random()
+            live_k = list(K)
+            if x < 0.2 and live_k:
+                # re-constructed under its OLD name while memoised (other instances, other size): harmless
+                kt = r.choice(live_k); items = lib_items(r.randrange(0, 3))
+                lines.append((f'W {kt} {K[kt]} {r.choice([0, 8, 16])} ' + ' '.join(f'{t}:{f}' for t, c, f in items)).rstrip())
+                T[kt] = [(c, f) for t, c, f in items]
+            elif x < 0.4 and live_k:
+                # renamed once no record memoises it
+                kt = r.choice(live_k); reset_all()
+                K[kt] = r.choice([n for n in cnames if n != K[kt]])
+                items = lib_items(r.randrange(0, 2))
+                lines.append((f'W {kt} {K[kt]} 0 ' + ' '.join(f'{t}:{f}' for t, c, f in items)).rstrip())
+                T[kt] = [(c, f) for t, c, f in items]
+            elif x < 0.6 and live_k:
+                # deleted once no record memoises it; often another class object lands on its address (arena)
+                kt = r.choice(live_k); reset_all()
+                lines.append(f'X {kt}')
+                oldname = K.pop(kt); T.pop(kt)
+                if mode_of[kt] == 'arena': arena_live[0] -= 1
+                if r.random() < 0.8: new_class(oldname if r.random() < 0.3 else None)
+            elif x < 0.75:
+                new_type()
+            elif x < 0.9:
+                # a type that uses the class objects is itself re-constructed (its own memoised pointers go)
+                users = [t for t in T if t not in K]
+                if users:
+                    tid = r.choice(users); items = [i for i in type_row() if i[0] != f't.{tid}']
+                    lines.append((f'W {tid} T{tid}_{name}_{rd} 0 ' + ' '.join(f'{t}:{f}' for t, c, f in items)).rstrip())
+                    T[tid] = [(c, f) for t, c, f in items]
+            else:
+                if len(K) < 5: new_class()
+            if len(T) > 14:
+                users = [t for t in T if t not in K]
+                if users: t = r.choice(users); lines.append(f'X {t}'); T.pop(t)
+        lookups(10)
         return Case(name, lines)
 
 class C08(Spec):
@@ -364,7 +560,13 @@ class C08(Spec):
                   'declares (a function of the declaration only), and the cache/memo invariant is preserved; C08_classerror_partial: ClassError exactly '
                   'for an absent class or NULL member (for types and classes other than Terminal: known finding KF-C08-terminal-message, refuted '
                   'statement kept beside it); C08_cast_exact / C08_bad_self: cast returns self exactly for the object\'s own type, ValueError otherwise, '
-                  'ValueError/TypeError for NULL, freed, foreign and non-type selves; C08_concurrent / C08_concurrent_complete / C08_wait_free: the same '
+                  'ValueError/TypeError for NULL, freed, foreign and non-type selves; C08_world_history: histories over SEVERAL type objects whose '
+                  'classes are themselves run-time type objects (names read when the lookup runs, addresses memoised): lookups, resets, casts of objects and of '
+                  'type objects, constructions on fresh or re-used addresses, re-constructions in place, deletions — every answer is a function of the '
+                  'declarations and names in force, under the executable hypothesis Heap.safe (a name is written at an address only if every memoised '
+                  'pointer to it already reads as that name); without it C08_memo_stale_refuted (known finding KF-C08-class-memo-stale); '
+                  'C08_ptr_eq_is_value_eq, C08_heap_construct_is_type_new tie the heap level to the pointer comparison and to the word-level Type_New; '
+                  'C08_null_class; C08_concurrent / C08_concurrent_complete / C08_wait_free: the same '
                   'results under every interleaving of atomic word accesses of any number of threads, every thread completing within 2n+10 own steps per '
                   'lookup; C08_machine_refines_sequential: the step machine run alone computes the sequential functions. All stated for the '
                   'Type_Cache_Entry table, CELLO_CACHE_NUM, CELLO_NBUILTINS and function texts of the current source (regenerated each run, table facts by '
@@ -382,7 +584,12 @@ class C08(Spec):
             'new_raw/new_root/new/alloc+construct/construct on junk-filled caller storage, destruct+construct IN PLACE with a mutated instance list '
             '(classes removed, added, reordered, flags changed; instance pointers always new; 0..256 instances; refused with 257+), copy/assign '
             'refused, del, each interleaved with lookups of the classes of every cache slot 0..17 (library class or same-named run-time twin) and of '
-            'uncached and removed classes in cold and warm states; the harness keeps the declaration in force and compares every lookup with it. '
+            'uncached and removed classes in cold and warm states; the harness keeps the declaration in force and compares every lookup with it; '
+            '(6) a type deleted and the next one built on the SAME ADDRESS (harness arena, lowest free slot), the first lookup on the new type being '
+            'the last one made on the old type; (7) class names in a prefix relation (Show/Showable, Format/FormatError, S/Size, …; library objects and '
+            'run-time classes), the longer one declared alone, before and after the shorter one; (8) type objects used as CLASSES of other types '
+            '(class token t.<tid>): re-constructed under the old name while memoised, renamed / deleted / replaced on the same address after the '
+            'memoising records were reset, with lookups through old and new names; NULL as the class on records where the answer is defined. '
             'non-trivial = a lookup whose observation is a found instance, an exception, a '
             'cast result or a thread run; distinct = distinct (declared row of the type, op without type number, observation); a re-construction counts by '
             '(declaration before, declaration after, outcome).')
@@ -393,7 +600,9 @@ class C08(Spec):
                    'type records are well-formed: every triple has a non-NULL name and instance pointer, the list ends with the NULL triple (what Cello()/Type_New build)',
                    'member offsets are offsetof() values inside the class struct (an out-of-struct offset is undefined behaviour and is not generated)',
                    'a cached class is never looked up on a `self` that is not a type object (Type_Instance reads the cache word before any check)',
-                   'a type object that other types use as a CLASS (its name is compared, its address memoised) is not re-constructed or deleted while they live: only types that are not used as classes go through W/X',
+                   'a type object that other types use as a CLASS is given another NAME (re-construction in place under another name; deletion followed by another type object on its address) only when no type record memoises its address (the generator resets the memoising records first): known finding KF-C08-class-memo-stale (witness corpus/kf_c08_class_renamed.ops; theorem hypothesis Heap.safe of C08_world_history, refuted without it by C08_memo_stale_refuted)',
+                   'NULL is not a class: type_instance(T, NULL) is probed only where Type_Scan does not read through the NULL pointer (C08_null_class says what it answers)',
+                   'malloc does not hand out the address of a deleted run-time type object again while a memoised pointer to it dangles (address reuse is exercised deterministically through the harness arena)',
                    'storage handed to construct has the size Type_Alloc reserves (CELLO_NBUILTINS + CELLO_MAX_INSTANCES + 1 cells) and a header naming Type; no lookup is made on a deleted type; GC-managed types (new) are kept reachable from the stack',
                    'default build (CELLO_CACHE on, checks on); loads and stores of pointer-sized words are atomic')
     def cases(self, rng, tier, boost=1):
@@ -413,6 +622,12 @@ class C08(Spec):
             cs.append(g.lifecycle_case(f'life{boost}_{i}', 6 if quick else 8, 3 if quick else 4))
         for i in range((1 if quick else 8) * boost):
             cs.append(g.lifecycle_case(f'lifebig{boost}_{i}', 3, 2, big=True))
+        for i in range((6 if quick else 80) * boost):
+            cs.append(g.classlife_case(f'cls{boost}_{i}', 25 if quick else 40))
+        for i in range((4 if quick else 60) * boost):
+            cs.append(g.reuse_case(f'reuse{boost}_{i}', 8 if quick else 12))
+        for i in range((2 if quick else 20) * boost):
+            cs.append(g.prefix_case(f'prefix{boost}_{i}'))
         for i in range((2 if quick else 10) * boost):
             cs.append(g.thread_case(f'thr{boost}_{i}', 16, 60 if quick else 600, 6 if quick else 10))
         if boost > 1:
@@ -455,9 +670,29 @@ class C08(Spec):
             if l.startswith('G '): slot_of = {x.split(':')[1]: x.split(':')[0] for x in l.split(' ')[1:]}
         last_c = {}; after_w = set()
         def bump(k, n=1): acc[k] = acc.get(k, 0) + n
+        arena_tids = set(); arena_freed = 0; as_class = set(); names = {}
         for op, o, rows in self._walk(case, c_out):
             t = op.split(' ')
             acc['op_' + t[0]] = acc.get('op_' + t[0], 0) + 1
+            # type objects used as classes; address reuse
+            for x in t[1:]:
+                if x.startswith('t.'): as_class.add(x.split(':')[0][2:])
+            if ' m=' in o:
+                mpart = o.split(' m=')[1].split(' ')[0]
+                if 't.' in mpart: bump('obs_memo_is_a_runtime_type_object')
+                if ':dead' in mpart: bump('obs_memo_dangling')
+            if t[0] == 'N' and len(t) > 3 and ' ok' in o:
+                if t[2] == 'arena':
+                    arena_tids.add(t[1])
+                    if arena_freed > 0: bump('type_built_on_the_address_of_a_deleted_one'); arena_freed -= 1
+                names[t[1]] = t[3]
+            if t[0] == 'X' and len(t) > 1:
+                if t[1] in arena_tids: arena_tids.discard(t[1]); arena_freed += 1
+                if t[1] in as_class: bump('class_object_deleted')
+            if t[0] == 'W' and len(t) > 2 and ' ok' in o and t[1] in as_class:
+                bump('class_object_renamed' if names.get(t[1]) != t[2] else 'class_object_reconstructed_same_name')
+                names[t[1]] = t[2]
+            if t[0] == 'E' and len(t) > 1 and t[1] == 'nullcls': bump('null_class_' + ('ub' if ' ub ' in o else 'answered'))
             # life cycle: which cache slots were warm when a type was re-constructed in place, which were looked up afterwards
             if t[0] in 'NW' and o != 'O bad-op':
                 w = o.split(' ')
